@@ -382,8 +382,9 @@ class Env:
 
 
 class _Spin(KeyboardInterrupt):
-    """Raised by the watchdog inside code that runs for seconds without yielding to the loop
-    (KeyboardInterrupt subclass: asyncio lets it propagate out of Task steps and Handle._run)."""
+    """Raised by the watchdog (ITIMER_VIRTUAL: user CPU time of one execution, so I/O stalls do not count)
+    inside code that runs for seconds without yielding to the loop (KeyboardInterrupt subclass: asyncio
+    lets it propagate out of Task steps and Handle._run)."""
 
 
 def _on_alarm(_sig, _frm):
@@ -400,8 +401,8 @@ def _run(make, script, env_kw, max_choices, stop_when_done, expect=None, extend=
     world = None
     old_handler = None
     if watchdog_s:
-        old_handler = signal.signal(signal.SIGALRM, _on_alarm)
-        signal.setitimer(signal.ITIMER_REAL, watchdog_s)
+        old_handler = signal.signal(signal.SIGVTALRM, _on_alarm)
+        signal.setitimer(signal.ITIMER_VIRTUAL, watchdog_s)
     try:
         world = make(env)
         env.settle()
@@ -451,15 +452,15 @@ def _run(make, script, env_kw, max_choices, stop_when_done, expect=None, extend=
         if world is None:
             env.close()
             raise HarnessError("watchdog fired inside make()")
-        env.horizon = f"a single callback ran for more than {watchdog_s} s without yielding"
+        env.horizon = f"one execution burnt more than {watchdog_s} s of CPU (a callback that never yields)"
         return env, world, frames, "spin"
     except BaseException:
         env.close()
         raise
     finally:
         if watchdog_s:
-            signal.setitimer(signal.ITIMER_REAL, 0)
-            signal.signal(signal.SIGALRM, old_handler)
+            signal.setitimer(signal.ITIMER_VIRTUAL, 0)
+            signal.signal(signal.SIGVTALRM, old_handler)
         if env.loop._thread_id is not None:
             env.loop.uninstall()
 
